@@ -29,7 +29,7 @@ ASSUMPTIONS = [
 REQUIRED_OUTCOMES = ["terminal/ok", "terminal/constant_channel_ok", "merge2/ok", "merge3/ok"]
 
 EPS32 = float(np.finfo(np.float32).eps)
-CLASSES = ["constant", "onebit", "eightbit", "wide", "outlier", "mixed_const"]
+CLASSES = ["constant", "onebit", "eightbit", "wide", "outlier", "mixed_const", "small_amplitude"]
 
 
 def bounds(tier: str) -> dict:
@@ -63,6 +63,9 @@ def _data(cls: str, n: int, C: int, seed: int) -> np.ndarray:
     elif cls == "outlier":
         X = rng.normal(0, 1, size=(n, C))
         X[n // 2, :] = 1e6
+    elif cls == "small_amplitude":
+        # skewed data of tiny amplitude (std ~1e-5, variance ~1e-10): the moments are scale free, nothing may treat this as "constant"
+        X = 1e-5 * rng.gamma(2.0, 1.0, size=(n, C))
     elif cls == "mixed_const":
         X = rng.normal(100, 15, size=(n, C))
         X[:, C - 1] = 42.0
